@@ -90,7 +90,27 @@ def run_coeff_trace(res, name, cases, profile="release"):
     binary = vlib.build_harness(profile)
     wd = vlib.workdir(name + "_coeffs")
     recs, tpath = vlib.run_harness(binary, cases, wd)
-    tr = vlib.run_tlc_trace("TraceCoeffs", tpath, xmx="16g", timeout=10800)
+    # TraceCoeffs judges every line on its own (no state across lines): a long trace is cut into parts that TLC instances
+    # validate side by side (a 15k-table thorough trace took > 75 min in one single-worker TLC run)
+    nparts = min(8, max(1, len(cases) // 1500))
+    if nparts == 1:
+        tr = vlib.run_tlc_trace("TraceCoeffs", tpath, xmx="16g", timeout=10800)
+    else:
+        import concurrent.futures
+        lines = open(tpath).read().splitlines()
+        paths = []
+        for k in range(nparts):
+            pk = "%s.part%d" % (tpath, k)
+            with open(pk, "w") as f:
+                f.write("\n".join(lines[k::nparts]) + "\n")
+            paths.append(pk)
+        with concurrent.futures.ThreadPoolExecutor(max_workers=nparts) as ex:
+            trs = list(ex.map(lambda pk: vlib.run_tlc_trace("TraceCoeffs", pk, xmx="6g", timeout=10800), paths))
+        tr = {"bad": [b for t in trs for b in t["bad"]], "judged": sum(t["judged"] for t in trs), "nbad": sum(t["nbad"] for t in trs),
+              "lines": [l for t in trs for l in t["lines"]], "generated": sum(t["generated"] for t in trs),
+              "distinct": sum(t["distinct"] for t in trs), "wall_s": max(t["wall_s"] for t in trs)}
+        if tr["judged"] != len(lines):
+            raise vlib.ToolError("TraceCoeffs parts judged %d of %d lines" % (tr["judged"], len(lines)))
     res.add_trace(tr, len(cases), "TraceCoeffs(%s)" % name)
     claimed = [x for x in tr["lines"] if x[0] == "CLAIMED"]
     if claimed:
